@@ -804,6 +804,10 @@ def oracle(case, impl):
     wf = well_formed(tree)
     if impl['cls'] == 'harness':
         return [('harness failure: %s' % impl['repr'], {'kind': 'harness'})]
+    mixed = must_refuse_mixed(tree)
+    if mixed and impl['cls'] != 'err':
+        return [('%s must be refused (mixed boolean / non-boolean operands) but yields %s: %s'
+                 % (mixed, impl['repr'], xml(tree)), {'kind': 'accepts-ill-sorted'})]
     if not wf:
         if impl['cls'] != 'err':
             why = spec_value(tree, {'v': {}, 'd': denv})[1]
@@ -1157,6 +1161,41 @@ def gen_repeated_chains():
     return out
 
 
+def gen_relation_operands():
+    """every relation with 2 and 3 operands drawn, in every order, from {true, false, a relation, an identifier, a
+    number, a derivative, an arithmetic application}: the boolean-operand checks of _get_nary_relation_callback"""
+    out = []
+    kinds = {
+        'true': lambda i: E('true'), 'false': lambda i: E('false'),
+        'rel': lambda i: ap('lt', ci('p%d' % i), ci('q%d' % i)),
+        'ci': lambda i: ci('x%d' % i), 'cn': lambda i: cn(['2', '0.5', '3'][i]),
+        'diff': lambda i: ap('diff', E('bvar', [ci('t')]), ci('y%d' % i)),
+        'arith': lambda i: ap('plus', ci('a%d' % i), cn('1')),
+    }
+    for r in RELS:
+        for n in (2, 3):
+            for ks in itertools.product(sorted(kinds), repeat=n):
+                out.append({'kind': 'relation-operands', 'tree': ap(r, *[kinds[k](i) for i, k in enumerate(ks)]),
+                            'operand_kinds': list(ks)})
+    return out
+
+
+def must_refuse_mixed(tree):
+    """the documented intent of the boolean-operand checks (parser.py, _wrapper_relational), for two operands:
+    an inequality with true / false as an operand, and an equation between true / false and a derivative, are refused
+    (an equation between a boolean and another non-boolean is only logged -- tolerated by design)"""
+    for t, _, _ in _nodes(tree):
+        if t[0] == 'apply' and len(t[4]) == 3 and t[4][0][0] in RELS:
+            op, a, b = t[4][0][0], t[4][1], t[4][2]
+            lits = [o[0] in ('true', 'false') for o in (a, b)]
+            ders = [o[0] == 'apply' and o[4] and o[4][0][0] == 'diff' for o in (a, b)]
+            if op in ('lt', 'leq', 'gt', 'geq') and any(lits):
+                return 'an inequality with a boolean constant as operand'
+            if op == 'eq' and any(lits) and not all(lits) and any(ders):
+                return 'an equation between a boolean constant and a derivative'
+    return None
+
+
 def gen_nested_powers():
     """power of a power, root of a power, power of a root: (a^b)^c is NOT a^(b*c) for a negative a with an even b and
     a fractional c -- power(power(x,2),0.5) is |x|.  Inner forms with a non-negative value x outer exponents, at
@@ -1435,7 +1474,7 @@ def nowhere_defined(tree):
 
 def exhaustive_cases():
     return (gen_tag_arity() + gen_qualifiers() + gen_numbers() + gen_special_operands() + gen_constants()
-            + gen_repeated_chains() + gen_nested_powers())
+            + gen_repeated_chains() + gen_nested_powers() + gen_relation_operands())
 
 
 def run(ctx):
